@@ -311,7 +311,7 @@ func (sc *srvScen) hostileReplyTo(lr *Run, d dgram, key ed25519.PublicKey, salt 
 		case 1:
 			rd.set(k, lr.randBval(2))
 		default:
-			b := make([]byte, []int{0, 1, 5, 19, 21, 25, 27, 37, 39}[r.Intn(9)])
+			b := make([]byte, []int{0, 1, 5, 19, 21, 25, 27, 37, 39, 6, 18, 26, 38, 52, 76}[r.Intn(15)])
 			rd.set(k, bB(b))
 		}
 	}
